@@ -47,7 +47,7 @@ pub fn factory_finished(a: &Args) {
     use ractor::factory::factoryimpl::verif_probe as fp;
     let rt = tokio::runtime::Builder::new_current_thread().enable_time().build().unwrap();
     let q: Vec<u64> = a.list_u128("queue").iter().map(|x| *x as u64).collect();
-    let out = rt.block_on(fp::factory_finished(&q, a.u64("draining") == 1, a.usize("fq")));
+    let out = rt.block_on(fp::factory_finished_on(&q, a.u64("draining") == 1, a.usize("fq"), a.opt_u128("closed").unwrap_or(0) == 1));
     println!("out={}", out.replace('=', ":"));
 }
 
